@@ -141,7 +141,7 @@ def scale(job, kind, mode, tier):
                                        "step-0 flux question mentions %s" % sorted(leak), nontrivial=True,
                                        replay={"fn": "vf.props.C11:concrete_step0", "inputs": dict(fb[0], kind=kind, mode=mode, program=program, N=1)})
                     if not got:
-                        job.vacuity["failed"].append(tag)
+                        job.unreached(tag)
     for f_ in realrun.proc_fallback(mode)[:1]:
         if ideal:
             r = concrete(dict(f_, kind=kind, mode=mode, N=3, k=2.5))
